@@ -124,7 +124,7 @@ def run_check(repo, chk: Check, tier, prefix):
             if o.meta.get("path_infeasible"):
                 vac += 1  # the whole path is infeasible under the full path condition: vacuous instance
                 continue
-            r, t, inf = discharge(o, timeout_ms=15000)
+            r, t, inf = discharge(o, timeout_ms=10000)
             ms += t
             if r == "discharged":
                 # cover: hypotheses must be satisfiable, else the instance is vacuous
@@ -174,7 +174,8 @@ def run_property(prop, tier, repo_root):
     prims.USED.clear()
     repo = Repo(repo_root)
     obligations, functions, axioms = [], [], set()
-    for chk in mod.CHECKS:
+    checks = list(mod.CHECKS) + (list(getattr(mod, 'THOROUGH_CHECKS', [])) if tier == 'thorough' else [])
+    for chk in checks:
         recs, funcs, H = run_check(repo, chk, tier, prop)
         obligations.extend(recs)
         for f in funcs:
@@ -188,7 +189,7 @@ def run_property(prop, tier, repo_root):
         "assumptions": list(getattr(mod, "ASSUMPTIONS", [])),
         "dropped": DROPPED,
         "z3_version": z3.get_version_string(),
-        "vacuity": {"checks": len(mod.CHECKS), "obligation_names": len(obligations),
+        "vacuity": {"checks": len(checks), "obligation_names": len(obligations),
                     "rule": "every obligation instance has a satisfiable-hypotheses cover query; zero obligations => undecided"},
         "wall_s": round(time.time() - t0, 2),
     }
